@@ -12,7 +12,7 @@ use flsrc::uci::Flounder;
 use refchess::{Kind, Mv, Pos};
 use serde_json::{json, Value};
 
-pub const RULE: &str = "game histories with controlled multiplicities: from startpos or a generated valid FEN, a random prefix (one start-position game in twelve: 200..600 plies without a repeated position), then shuffle cycles (both sides move a man out and back, 0..3 full cycles, knight/king/rook/bishop/queen shuffles, with and without lost castling rights, vanished ep squares or an intervening irreversible move) and a partial cycle, so that the candidate successors of the final position P have 0, 1, 2 or >=3 earlier occurrences; 1..2 position commands on a fresh engine (only the last one's history may count; in a fifth of the cases the game is given first and then its final position again as a bare 'position fen …' / 'position startpos' without moves, whose history is that single position). Oracle (value level, through the real command path): 'position ...' then 'go depth 1'; the score of the completed depth-1 iteration must equal max over legal m of ( n(m) >= 2 ? 0 : -Q(P·m) ), Q = reference quiescence value, n(m) = occurrences of P·m in the most recent command's history. Successors whose count differs between the rule-book identity (ep only if capturable) and the exact-field identity are not judged. Non-trivial = the case discriminates (value with the draw rule != value without it, or a successor seen exactly once keeps its real non-zero value while deciding the maximum) ; distinct by command text. Part 'interrupted': the same oracle after 1..3 searches of the judged position that were cut off by a node deadline (mostly inside their first iterations) with no position command in between; half of the cases are judged by 'go depth 1' (excluded when it used a cached result), half by 'go depth 2|3' with the oracle of the part 'deep' (what the cut searches cached is true for this very history; excluded only when a DEEPER cached result was used). Part 'two-components' (ENUMERATED, 1024 histories): a double pawn push on every file, then rook, king or knight shuffles of both sides (every combination of lost rights) after which the position comes back WITHOUT its en-passant square AND without a castling right (two components differ at once: a different position by any reading), stopped one move before that later position would occur the second time: its value must be the real one. Part 'veteran': the same depth-1 oracle on an engine that keeps searching heavy middlegame positions in between (chunks of 1.4 M nodes ended by a node deadline; 9 chunks per engine quick, 40 thorough), one few-men case after every chunk — the tables hold hundreds of thousands of entries by then (maximum reported), nothing of which the case may use (a judged search that used a cached result is excluded). Part 'deep' (values two and three plies down): the same kind of game (mostly 3..6 men, often one or two plies off the shuffle cycle so that the twice-seen positions lie two or three plies below the root), then 'go depth 2|3' on a fresh engine; EVERY completed iteration i must report V_h(P,i) = plain minimax over the reference rules in which any position below the root that the judged history already shows twice is worth 0, leaves by the reference quiescence (with depth <= 3 no position can recur inside the line itself, and the deeper-entry-reuse counter must be 0). Cases whose value differs between the two identities of positions are not judged. Non-trivial there = the rule applied one ply below the root only would give another value (a draw two or three plies down decides), or an abandoned earlier game would; distinct by (command text, depth).";
+pub const RULE: &str = "game histories with controlled multiplicities: from startpos or a generated valid FEN, a random prefix (one start-position game in twelve: 200..600 plies without a repeated position), then shuffle cycles (both sides move a man out and back, 0..3 full cycles, knight/king/rook/bishop/queen shuffles, with and without lost castling rights, vanished ep squares or an intervening irreversible move) and a partial cycle, so that the candidate successors of the final position P have 0, 1, 2 or >=3 earlier occurrences; 1..2 position commands on a fresh engine (only the last one's history may count; in a fifth of the cases the game is given first and then its final position again as a bare 'position fen …' / 'position startpos' without moves, whose history is that single position). Oracle (value level, through the real command path): 'position ...' then 'go depth 1'; the score of the completed depth-1 iteration must equal max over legal m of ( n(m) >= 2 ? 0 : -Q(P·m) ), Q = reference quiescence value, n(m) = occurrences of P·m in the most recent command's history. Successors whose count differs between the rule-book identity (ep only if capturable) and the exact-field identity are not judged. Non-trivial = the case discriminates (value with the draw rule != value without it, or a successor seen exactly once keeps its real non-zero value while deciding the maximum) ; distinct by command text. Part 'interrupted': the same oracle after 1..3 searches of the judged position that were cut off by a node deadline (mostly inside their first iterations) with no position command in between; half of the cases are judged by 'go depth 1' (excluded when it used a cached result), half by 'go depth 2|3' with the oracle of the part 'deep' (what the cut searches cached is true for this very history; excluded only when a DEEPER cached result was used). Part 'two-components' (ENUMERATED, about 1150 histories): a double pawn push on every file, then rook, king or knight shuffles of both sides (every combination of lost rights) after which the position comes back WITHOUT its en-passant square AND without a castling right (two components differ at once: a different position by any reading), and the same without the push (the position comes back differing in castling rights only, one to four of them at once), stopped one move before that later position would occur the second time: its value must be the real one. Part 'veteran': the same depth-1 oracle on an engine that keeps searching heavy middlegame positions in between (chunks of 1.4 M nodes ended by a node deadline; 9 chunks per engine quick, 40 thorough), one few-men case after every chunk — the tables hold hundreds of thousands of entries by then (maximum reported), nothing of which the case may use (a judged search that used a cached result is excluded). Part 'deep' (values two and three plies down): the same kind of game (mostly 3..6 men, often one or two plies off the shuffle cycle so that the twice-seen positions lie two or three plies below the root), then 'go depth 2|3' on a fresh engine; EVERY completed iteration i must report V_h(P,i) = plain minimax over the reference rules in which any position below the root that the judged history already shows twice is worth 0, leaves by the reference quiescence (with depth <= 3 no position can recur inside the line itself, and the deeper-entry-reuse counter must be 0). Cases whose value differs between the two identities of positions are not judged. Non-trivial there = the rule applied one ply below the root only would give another value (a draw two or three plies down decides), or an abandoned earlier game would; distinct by (command text, depth).";
 
 pub fn reversible(p: &Pos, m: &Mv) -> bool {
     let i = p.info(*m);
@@ -811,13 +811,23 @@ fn two_component_cases() -> Vec<(String, Vec<Pos>)> {
         format!("{}{}{}{}", b[0] as char, fr(b[1]), b[2] as char, fr(b[3]))
     };
     let mut out = Vec::new();
-    for base in &bases {
+    // variant without the double push (file 8): the position comes back differing in castling
+    // rights ONLY — one, two, three or four of them at once; there the extra bishop is the pusher's,
+    // so that the side to move at the end again stands worse
+    let bases_nopush: Vec<Pos> = ["r3k2r/pppppppp/8/8/8/8/PPPPPPPP/R1B1K2R w KQkq - 0 1", "rn2k2r/pppppppp/8/8/8/8/PPPPPPPP/R1B1K2R w KQkq - 0 1", "r3k2r/pppppppp/8/8/8/8/PPPPPPPP/RNB1K2R w KQkq - 0 1", "rn2k2r/pppppppp/8/8/8/8/PPPPPPPP/RNB1K2R w KQkq - 0 1"]
+        .iter()
+        .map(|f| Pos::from_fen(f).unwrap().0)
+        .collect();
+    for (bi, base0) in bases.iter().enumerate() {
     for mirrored in [false, true] {
-        for file in 0..8u8 {
+        for file in 0..9u8 {
+            let base = if file == 8 { &bases_nopush[bi] } else { base0 };
             for (a, ar) in answer {
                 for (b, br) in pusher {
-                    let push = format!("{}2{}4", (b'a' + file) as char, (b'a' + file) as char);
-                    let mut moves: Vec<String> = vec![push];
+                    let push = format!("{}2{}4", (b'a' + file.min(7)) as char, (b'a' + file.min(7)) as char);
+                    let mut moves: Vec<String> = if file == 8 { vec![] } else { vec![push] };
+                    // without the push the pusher's side starts the shuffle
+                    let (a, ar, b, br) = if file == 8 { (b, br, a, ar) } else { (a, ar, b, br) };
                     for _ in 0..1 {
                         moves.extend([a, b, ar, br].iter().map(|x| x.to_string()));
                     }
